@@ -46,6 +46,9 @@ def blocked_categories(w):
             continue
         at = t.get('at', '')
         op = t.get('op', '')
+        if t.get('api_deadline_ns', 0) and at != 'nsync_mu_lock_slow_' and not t.get('timed') and t.get('api_deadline_ns') < (1 << 62):
+            # asleep with no timer inside a call that was given a finite deadline: it can no longer return "as soon as the deadline has passed"
+            cats.add('timed-call-asleep-untimed')
         if at == 'nsync_mu_lock_slow_' or op in ('nsync_mu_lock', 'nsync_mu_rlock'):
             cats.add('lock')
         elif at.startswith('nsync_cv_wait') or op.startswith('nsync_cv_wait'):
@@ -75,8 +78,10 @@ def mu_mix_owners(w, home):
         s = {'C01'}
     elif o == 'mode':
         s = {'C05', 'C01'} if 'wait' in key else {'C01'}
-    elif o in ('deadlock', 'no-progress'):
+    elif o in ('deadlock', 'no-progress', 'watchdog'):
         cats = blocked_categories(w)
+        if 'timed-call-asleep-untimed' in cats:
+            s |= {'C05'}
         if 'lock' in cats:
             s |= {'C02'}
         if 'cv' in cats:
